@@ -65,6 +65,10 @@ def scalar_value(args: dict, clock: dict, fields: dict, mem: int, draws: float) 
     if vec is not None:
         for i, x in enumerate(np.asarray(vec, dtype=float).ravel()):
             v += (i + 1) * W_VEC * float(x)
+    for _name, _w in (("aux", 0.53), ("aux2", 0.0117)):
+        _a = args.get(_name)
+        if isinstance(_a, (int, float)):
+            v += _w * float(_a)
     mvec = args.get("mvec")
     if mvec is not None:
         v += 0.0021 * float(np.sum(np.asarray(mvec, dtype=float))) + 0.19 * len(np.asarray(mvec).ravel())
